@@ -183,6 +183,41 @@ def impure_pairs(r, tier):
                         ve = f"c {op} {e}" if left else f"{e} {op} c"
                         out.append((f"{op} C={form} E={e} {'C first' if left else 'E first'} in {w}",
                                     program(ce, cv, w, False, False), program(ve, cv, w, True, r.chance(1, 3))))
+    # several actuals of ONE call: the same constant (in different forms) in more than one position, separated by actuals that
+    # contain calls, variables or other constants (what is left in a register by one actual must not be taken for the next)
+    shows = "".join(
+        f"proc show{n}(" + ", ".join(f"val a{i}" for i in range(n)) + ") is { " + "; ".join(f"1(a{i} + '0', 0)" for i in range(n)) + " }\n"
+        f"func fshow{n}(" + ", ".join(f"val a{i}" for i in range(n)) + ") is { " + "; ".join(f"1(a{i} + '0', 0)" for i in range(n)) + f"; return a0 + a{n - 1} }}\n"
+        for n in range(2, 6))
+    slots = {"E": "mk(7)", "P": "id(3)", "V": "x", "K": "2", "N": "(mk(1) + 1)", "S": "(x + 1)"}
+    pats = ["CEC", "CPC", "CVC", "CEPC", "CCEC", "ECC", "CEK", "KECEC", "CNC", "CKC", "CEVC", "CC", "CCC", "PCEC", "CSC", "CEEC", "VCPC"]
+    for cv in (5, 0, 1):
+        forms = const_forms(cv)
+        for pat in pats:
+            for _ in range(1 if tier == "quick" else 6):
+                cs = [r.choice(forms) for _ in pat]
+                ac = ", ".join(cs[i] if ch == "C" else slots[ch] for i, ch in enumerate(pat))
+                av = ", ".join("c" if ch == "C" else slots[ch] for ch in pat)
+                n = len(pat)
+
+                def prog(actuals, through_var):
+                    pre = f"c := {cv}; " if through_var else ""
+                    return ("var x;\n" + IMPURE_PRELUDE + shows + "proc main() is\n{ g := 0; x := 4; " + pre +
+                            f"show{n}({actuals}); 1(g + '0', 0); res := fshow{n}({actuals}); 1(g + '0', 0); 0(res) }}\n")
+                out.append((f"actuals {pat} C={cv} forms={cs}", prog(ac, False), prog(av, True)))
+    # a constant as the WHOLE condition of if / while (and under not): the statement generators see a constant node
+    for cv in (0, 1):
+        for form in const_forms(cv):
+            for tmpl in ("while {C} do {{ 1('w', 0); g := g + 1; if g > 2 then 0(g) else skip }}; 1('e', 0); 0(g + 7)",
+                         "if {C} then 1('T', 0) else 1('F', 0); 0(g)",
+                         "while ~{C} do {{ 1('w', 0); g := g + 1; if g > 2 then 0(g) else skip }}; 1('e', 0); 0(g + 7)",
+                         "if ~{C} then {{ 1('T', 0); g := 3 }} else skip; 0(g)",
+                         "while m1() and {C} do {{ 1('w', 0); if g > 2 then 0(g) else skip }}; 1('e', 0); 0(g + 7)",
+                         "if {C} then while {C} do {{ 1('w', 0); 0(9) }} else 1('n', 0); 0(g)"):
+                def cprog(cexpr, through_var):
+                    pre = f"c := {cv}; " if through_var else ""
+                    return IMPURE_PRELUDE + "proc main() is\n{ g := 0; " + pre + tmpl.replace("{C}", cexpr).replace("{{", "{").replace("}}", "}") + " }\n"
+                out.append((f"condition {tmpl[:24]} C={form}", cprog(form, False), cprog("c", True)))
     # nested: the constant decides an inner node whose sibling is impure, under another operator
     for form0, form1 in zip(const_forms(0)[:6], const_forms(1)[:6]):
         for tmpl, cv in (("(m1() and {C}) or m0()", 0), ("m0() or ({C} and m1())", 0), ("~(m1() and {C})", 0),
